@@ -124,7 +124,7 @@ def c13(ctx):
     entries = [f for f in prog.fns.values() if f.crate == "msi" and f.file == "src/internal/expr.rs" and f.exported]
     n = inv.run(ctx, "PANIC(eval)", entries, only=lambda f: f.file in ("src/internal/expr.rs", "src/internal/value.rs"),
                 label="Expr constructors (constant folding) and Expr::eval")
-    ctx.floor("PANIC(eval)", "potential panic sites in expr.rs reachable from Expr's public API", n, 8)
+    ctx.floor("PANIC(eval)", "potential panic sites in expr.rs reachable from Expr's public API", n, 2)
     ctx.floor("PANIC(eval)", "public Expr entry points", len(entries), 25)
     expr.run_c13(ctx)
     ctx.assume(EXT_ASSUME)
@@ -248,3 +248,65 @@ def c02(ctx):
     from .rules import propset
     return ctx.finish(explanation="reader-side structure: cell widths, offset-binary constants, column-major nesting, reference-width threading, pool header bit and long-string escape, "
                       "type-word masks and the 1-byte integer quirk, optional catalog streams, repeated-key rejection. That decoded values equal a foreign generator's is not decided")
+
+
+@prop("C07")
+def c07(ctx):
+    from .rules import dml, validity
+    dml.gate1(ctx)
+    dml.gate2(ctx)
+    validity.info_valid(ctx)
+    validity.cat_arms(ctx)
+    prog = ctx.prog
+    inv = inventory(prog)
+    ctx.rule("PANIC(validators)", PANIC_TEXT)
+    entries = [prog.fn("msi::internal::category::Category::validate"), prog.fn("msi::internal::column::Column::is_valid_value")]
+    n = inv.run(ctx, "PANIC(validators)", entries, label="Category::validate and Column::is_valid_value")
+    ctx.floor("PANIC(validators)", "potential panic sites in the validators", n, 3)
+    ctx.assume(EXT_ASSUME)
+    return ctx.finish(explanation="the gate exists, covers the whole batch, precedes every mutation; its rejections are exactly the documented ones; the validator reads "
+                      "every constraint field with the documented comparisons; each named category has its own arm of the documented shape; panic inventory of the "
+                      "validators. That each grammar matches its documentation on all strings is not decided")
+
+
+@prop("C05")
+def c05(ctx):
+    from .rules import dml, schema
+    dml.info_key(ctx)
+    dml.gate1(ctx)
+    dml.ord1(ctx)
+    schema.ins1(ctx, fns=("msi::internal::query::Insert::exec",), floor=3)
+    return ctx.finish(explanation="necessary conditions for unique, ordered keys and valid cells: key awareness of every function that creates cells and rewrites rows, "
+                      "duplicate tests before the keyed inserts, validation before creation, key-ordered emission. The invariant over all histories is not decided")
+
+
+@prop("C08")
+def c08(ctx):
+    from .rules import dml, codec
+    dml.pairs(ctx)
+    dml.cat_sym(ctx)
+    codec.pool_codec(ctx)
+    codec.cell_codec(ctx)
+    codec.codec_e(ctx)
+    return ctx.finish(explanation="reference pairing (release on delete, release-then-acquire on update, who-may-call for the pool counters, rows deleted before a table "
+                      "stream is removed), catalog symmetry of create/drop, agreement of the two pool writers, cell codec widths and constants, no live empty entry. "
+                      "That every refcount equals the number of referring cells after every history is not decided")
+
+
+@prop("C20")
+def c20(ctx):
+    from .rules import dml, eam
+    dml.limits(ctx)
+    eam.run(ctx, rule="EAM")
+    eam.pre_valid(ctx)
+    prog = ctx.prog
+    inv = inventory(prog)
+    ctx.rule("PANIC(capacity)", PANIC_TEXT)
+    entries = [prog.fn("msi::internal::package::Package::<F>::" + n) for n in ("insert_rows", "update_rows", "delete_rows", "create_table", "drop_table", "write_stream")]
+    n = inv.run(ctx, "PANIC(capacity)", entries, only=lambda f: f.file in ("src/internal/stringpool.rs", "src/internal/query.rs", "src/internal/table.rs", "src/internal/value.rs"),
+                label="insert_rows / update_rows / create_table (capacity limits)")
+    ctx.floor("PANIC(capacity)", "potential panic sites on the mutating paths", n, 20)
+    ctx.assume(EXT_ASSUME)
+    return ctx.finish(explanation="limits enforced on both sides: reader bounds mirrored by writer-side argument errors before mutation, column-count limits, catalog width "
+                      "disagreement covered by pre-validation, no error after mutation, and the panic inventory of the mutating paths (the deliberate capacity panics of "
+                      "StringPool::incref are a known finding). Exact boundary arithmetic is not decided")
